@@ -56,7 +56,7 @@ func zeroFirstTable(n int, seed int64) *vtable {
 		t.vals[jsonapi.AttrTypeBool] = []any{false, true}
 		t.vals[jsonapi.AttrTypeTime] = []any{time.Time{}, mustTime("2001-02-03T04:05:06.789012345Z"),
 			mustTime("9999-12-31T23:59:59.999999999+14:00"), mustTime("0001-01-01T00:00:00.000000001-07:30")}
-		t.vals[jsonapi.AttrTypeBytes] = []any{[]byte{}, []byte{0}, []byte{1, 2}, []byte{255, 0, 255}}
+		t.vals[jsonapi.AttrTypeBytes] = []any{[]byte{}, []byte{1, 2}, []byte{2, 1}, []byte{255, 0}} // ranks 1..3: same length (in-place overwrite)
 		return t
 	}
 	r := rand.New(rand.NewSource(seed*1000 + int64(n)))
@@ -89,7 +89,8 @@ func zeroFirstTable(n int, seed int64) *vtable {
 	t.vals[jsonapi.AttrTypeUint64] = distinct(uint64(0), func() any { return r.Uint64() })
 	t.vals[jsonapi.AttrTypeBool] = []any{false, true}
 	t.vals[jsonapi.AttrTypeTime] = distinct(time.Time{}, func() any { return randTime(r) })
-	t.vals[jsonapi.AttrTypeBytes] = distinct([]byte{}, func() any { return randBytes(r, 1+r.Intn(8)) })
+	blen := 1 + r.Intn(8)
+	t.vals[jsonapi.AttrTypeBytes] = distinct([]byte{}, func() any { return randBytes(r, blen) })
 	return t
 }
 
